@@ -5,6 +5,7 @@ import (
 	"encoding/xml"
 	"errors"
 	"fmt"
+	"io"
 	"math/rand"
 	"runtime"
 	"strings"
@@ -274,6 +275,25 @@ type reuseState struct {
 	spec  *elem // what the owner put into it
 	start xml.StartElement
 	left  int
+	// relay is a payload element that the owner transmits again and again as
+	// the very same tokens, shaped like what a decoder hands out for received
+	// XML: a namespace in the name plus the xmlns attribute, followed by
+	// another attribute (nil: none)
+	relay     *elem
+	relayToks []xml.Token
+}
+
+// rawReader hands out its tokens as they are (no copies): what the library
+// does to them, the owner sees.
+type rawReader struct{ toks []xml.Token }
+
+func (r *rawReader) Token() (xml.Token, error) {
+	if len(r.toks) == 0 {
+		return nil, io.EOF
+	}
+	t := r.toks[0]
+	r.toks = r.toks[1:]
+	return t, nil
 }
 
 func (g *gen) reusedStart(rec *opRec, marker string) (*opRec, func(ctx context.Context) error) {
@@ -291,11 +311,20 @@ func (g *gen) reusedStart(rec *opRec, marker string) (*opRec, func(ctx context.C
 		}
 	}
 	e := &elem{Name: ru.spec.Name, Attrs: ru.spec.Attrs, Kids: []any{mk}}
+	payload := e.inner()
+	if ru.relay != nil {
+		e.Kids = append(e.Kids, ru.relay)
+		payload = append(payload, ru.relayToks...)
+	}
 	rec.Entry, rec.Form, rec.stanza, rec.startGiven = "SendElement", "tokens+reused-start", true, true
 	rec.want, rec.Size = e.node(""), sizeClass(e)
 	start := ru.start // the same value (and attribute slice) every time
 	s := g.s
-	return rec, func(ctx context.Context) error { return s.SendElement(ctx, reader(e.inner()), start) }
+	if ru.relay != nil {
+		rec.Form = "tokens+reused-start+relayed-payload"
+		return rec, func(ctx context.Context) error { return s.SendElement(ctx, &rawReader{toks: payload}, start) }
+	}
+	return rec, func(ctx context.Context) error { return s.SendElement(ctx, reader(payload), start) }
 }
 
 // next generates one operation: its record (with the expected tree) and the
@@ -440,6 +469,15 @@ func (g *gen) next(actor, n int) (*opRec, func(ctx context.Context) error) {
 		// again and again with different payloads
 		start := xml.StartElement{Name: st.Name, Attr: append(make([]xml.Attr, 0, len(pool)+r.Intn(3)), pool...)}
 		g.reuse = &reuseState{spec: st, start: start, left: 2 + r.Intn(2)}
+		if r.Intn(2) == 0 {
+			x := &elem{Name: xml.Name{Space: nsExt, Local: "x"}, Attrs: []xml.Attr{attr("xmlns", nsExt), attr("type", "submit")}, Kids: []any{"relayed"}}
+			if r.Intn(2) == 0 {
+				x.Attrs = append(x.Attrs, attr("k", "v"))
+			}
+			xs := xml.StartElement{Name: x.Name, Attr: append(make([]xml.Attr, 0, len(x.Attrs)+r.Intn(2)), x.Attrs...)}
+			g.reuse.relay = x
+			g.reuse.relayToks = []xml.Token{xs, xml.CharData("relayed"), xs.End()}
+		}
 		return g.reusedStart(rec, marker)
 	case 22: // a call with an invalid argument: it must fail, write nothing, and leave the session usable
 		rec.Entry, rec.invalid = "Invalid", true
